@@ -37,7 +37,7 @@ def run(res):
         res, "c11", n,
         prop_files=["theories/Properties/C11.v"],
         model_files=[],
-        theorem_note="Properties/C11.v: C11_election_max_any_order (exclusive critical section: every entry order gives the maximum and an announcer of it), C11_lock_discipline (obligations over the lock table regenerated from server.go / rib.go: "
+        theorem_note="Properties/C11.v: C11_election_max_any_order (exclusive critical section: every entry order gives the maximum and an announcer of it), C11_no_lock_leaked + C11_no_lock_leaked_details (regenerated per-exit may-hold analysis: every return / end of body of every locking function of rib/server, branch by branch, holds no lock it took unless a deferred unlock covers it; the one excused exit is named in LockOrder.known_leaks), C11_lock_discipline (obligations over the lock table regenerated from server.go / rib.go: "
                      "guarded writes exclusive, guarded reads locked, lock order acyclic), C11_no_close_of_sent_channel + C11_chan_discipline(_details) (obligations over the channel table regenerated from server.go / rib.go: no channel that is sent on is closed, closed once, sends have receivers, one-shot error sends return, tear-down after the RPC-ending error, consumers stay alive, no inescapable channel operation under a lock), C11_ranked_locks_no_deadlock_cycle; C11_shared_cs_lost_update_refuted",
         trusted=STB + ["tools/gen_locktable (Go AST: per function the locks held at each access to a guarded field and at each call) - a static approximation: name-based call graph inside package server and rib",
                        "the field -> guard map and the list of setup-only writers in Conc/LockOrder.v (hand-written)", "Go race detector, watchdogs, goroutine dumps"],
